@@ -48,16 +48,22 @@ thread_local! {
 }
 
 fn register_receiver(rx: Receiver<CollectCommand>) {
+    #[cfg(feature = "verif")]
+    crate::verif::hit(crate::verif::Point::Register { q: rx.verif_id() });
     SPSC_RXS.lock().push(rx);
 }
 
 fn send_command(cmd: CollectCommand) {
+    #[cfg(feature = "verif")]
+    verif_send_point(false, &cmd);
     COMMAND_SENDER
         .try_with(|sender| unsafe { (*sender.get()).send(cmd).ok() })
         .ok();
 }
 
 fn force_send_command(cmd: CollectCommand) {
+    #[cfg(feature = "verif")]
+    verif_send_point(true, &cmd);
     COMMAND_SENDER
         .try_with(|sender| unsafe { (*sender.get()).force_send(cmd) })
         .ok();
@@ -262,6 +268,10 @@ impl GlobalCollector {
         let submit_spans = &mut self.submit_spans;
         let stale_spans = &mut self.stale_spans;
 
+        #[cfg(feature = "verif")]
+        crate::verif::hit(crate::verif::Point::CycleBegin);
+        #[cfg(feature = "verif")]
+        crate::verif::hit(crate::verif::Point::PassBegin { pass: 1 });
         drain_receivers(start_collects, drop_collects, commit_collects, submit_spans);
 
         // The receivers are drained one after another, so a commit or cancel received above may
@@ -273,8 +283,13 @@ impl GlobalCollector {
         let ready_drops = drop_collects.len();
         let ready_commits = commit_collects.len();
         if ready_drops + ready_commits > 0 {
+            #[cfg(feature = "verif")]
+            crate::verif::hit(crate::verif::Point::PassBegin { pass: 2 });
             drain_receivers(start_collects, drop_collects, commit_collects, submit_spans);
         }
+
+        #[cfg(feature = "verif")]
+        crate::verif::hit(crate::verif::Point::DrainEnd);
 
         // If the reporter is not set, global collectior only clears the channel and then dismiss
         // all messages.
@@ -283,6 +298,8 @@ impl GlobalCollector {
             drop_collects.clear();
             commit_collects.clear();
             submit_spans.clear();
+            #[cfg(feature = "verif")]
+            crate::verif::hit(crate::verif::Point::CycleEnd);
             return;
         }
 
@@ -385,7 +402,13 @@ impl GlobalCollector {
             );
         }
 
+        #[cfg(feature = "verif")]
+        crate::verif::hit(crate::verif::Point::BeforeReport {
+            n: committed_records.len(),
+        });
         self.reporter.as_mut().unwrap().report(committed_records);
+        #[cfg(feature = "verif")]
+        crate::verif::hit(crate::verif::Point::CycleEnd);
     }
 }
 
@@ -396,6 +419,8 @@ fn drain_receivers(
     submit_spans: &mut Vec<SubmitSpans>,
 ) {
     SPSC_RXS.lock().retain_mut(|rx| {
+        #[cfg(feature = "verif")]
+        crate::verif::hit(crate::verif::Point::DrainBegin { q: rx.verif_id() });
         loop {
             match rx.try_recv() {
                 Ok(Some(CollectCommand::StartCollect(cmd))) => start_collects.push(cmd),
@@ -413,6 +438,85 @@ fn drain_receivers(
             }
         }
     });
+}
+
+#[cfg(feature = "verif")]
+fn verif_send_point(force: bool, cmd: &CollectCommand) {
+    use crate::verif::Point;
+    let (kind, collect_id, items, span_id, spans) = match cmd {
+        CollectCommand::StartCollect(c) => (crate::verif::KIND_START, c.collect_id, 1, 0, 0),
+        CollectCommand::DropCollect(c) => (crate::verif::KIND_DROP, c.collect_id, 1, 0, 0),
+        CollectCommand::CommitCollect(c) => (crate::verif::KIND_COMMIT, c.collect_id, 1, 0, 0),
+        CollectCommand::SubmitSpans(c) => {
+            let (span_id, spans) = match &c.spans {
+                SpanSet::Span(raw) => (raw.id.0, 1),
+                SpanSet::LocalSpansInner(l) => {
+                    (l.spans.first().map(|s| s.id.0).unwrap_or(0), l.spans.len())
+                }
+                SpanSet::SharedLocalSpans(l) => {
+                    (l.spans.first().map(|s| s.id.0).unwrap_or(0), l.spans.len())
+                }
+            };
+            (
+                crate::verif::KIND_SUBMIT,
+                c.collect_token.first().map(|i| i.collect_id).unwrap_or(0),
+                c.collect_token.len(),
+                span_id,
+                spans,
+            )
+        }
+    };
+    crate::verif::hit(Point::Send {
+        force,
+        kind,
+        collect_id,
+        items,
+        span_id,
+        spans,
+    });
+}
+
+#[cfg(feature = "verif")]
+pub(crate) fn verif_run_collector_cycle() {
+    if let Some(global_collector) = GLOBAL_COLLECTOR.lock().as_mut() {
+        global_collector.handle_commands();
+    }
+}
+
+#[cfg(feature = "verif")]
+pub(crate) fn verif_collector_stats() -> crate::verif::Stats {
+    let guard = GLOBAL_COLLECTOR.lock();
+    let receivers = SPSC_RXS.lock().len();
+    match guard.as_ref() {
+        None => crate::verif::Stats {
+            receivers,
+            ..Default::default()
+        },
+        Some(c) => {
+            let mut active_collect_ids: Vec<usize> = c.active_collectors.keys().copied().collect();
+            active_collect_ids.sort_unstable();
+            crate::verif::Stats {
+                installed: true,
+                active_collect_ids,
+                buffered_span_sets: c
+                    .active_collectors
+                    .values()
+                    .map(|a| a.span_collections.len())
+                    .sum(),
+                danglings: c
+                    .active_collectors
+                    .values()
+                    .map(|a| a.danglings.values().map(|v| v.len()).sum::<usize>())
+                    .sum(),
+                receivers,
+                scratch_len: c.start_collects.len()
+                    + c.drop_collects.len()
+                    + c.commit_collects.len()
+                    + c.submit_spans.len()
+                    + c.stale_spans.len(),
+            }
+        }
+    }
 }
 
 impl LocalSpansInner {
